@@ -26,7 +26,7 @@ RULE = (
 
 ASSUMPTIONS = [
     "reference = dense Gaussian conditioning on an MA representation truncated at 200 pre-sample periods (first-order simulate() is judged by C01)",
-    "cases whose joint covariance of the observed cells has condition number > 1e8 are not judged (singular prediction-error covariance is outside the property)",
+    "cases whose joint covariance of the observed cells has condition number > 1e7 are not judged (singular prediction-error covariance is outside the property)",
     "the initial distribution uses the assigned constant stds also when stds_from_data=True (as the implementation documents: time-varying values apply to the in-sample periods)",
     "absolute tolerance floors scale with the prior standard deviation of the quantity (1e-7 x for means, 1e-8 x variance for variances): smoothed variances that are exactly zero come back as cancellation noise whose size depends on the BLAS build",
     "predict_mse_obs is compared only when rescale_variance=False",
@@ -105,7 +105,7 @@ def _check(case):
 
     rows_all, vals_all = obs_rows(N)
     full = joint.condition(rows_all, vals_all)
-    if full is None or (rows_all and full.cond_number() > 1e8):
+    if full is None or (rows_all and full.cond_number() > 1e7):
         return {"labels": ["singular_observation_covariance"], "nontrivial": False}
     prefix = []
     for t in range(N):
